@@ -172,6 +172,10 @@ def _frame_obs(ex, c, s, old, ln):
             kq = z3.Const("frame!k", {"ref": Ref, "int": z3.IntSort(), "str": z3.IntSort()}[ks])
             d1, d0 = z3.Select(na, r), z3.Select(n0, r)
             same = z3.And(d1 == d0, z3.ForAll([kq], z3.Implies(z3.Select(d1, kq), z3.Select(z3.Select(arr, r), kq) == z3.Select(z3.Select(a0, r), kq))))
+        elif ex.schema[key].kind.startswith("reflist"):
+            kq = z3.Int("frame!k")
+            l1, l0 = z3.Select(na, r), z3.Select(n0, r)
+            same = z3.And(l1 == l0, z3.ForAll([kq], z3.Implies(z3.And(0 <= kq, kq < l1), z3.Select(z3.Select(arr, r), kq) == z3.Select(z3.Select(a0, r), kq))))
         elif na is not None:
             same = z3.And(same, z3.Select(na, r) == z3.Select(n0, r))
             # the value under a None flag is irrelevant
